@@ -447,7 +447,8 @@ def render_some(r, dt):
     wd = WD3[_dt.date(y, mo, d).weekday()]
     h12 = h % 12 or 12
     ap = "AM" if h < 12 else "PM"
-    offs = ["", "", "Z", " UTC", "+0000", "-03:00", "+05:30", "-0800", "+01", " EST", " GMT+3", " -0300 (BRST)"]
+    offs = ["", "", "Z", " UTC", "+0000", "-03:00", "+05:30", "-0800", "+01", " EST", " GMT+3", " -0300 (BRST)",
+            " UTC-5", " BRST+3", " GMT-0"]
     off = r.choice(offs)
     forms = [
         "%04d-%02d-%02dT%02d:%02d:%02d" % (y, mo, d, h, mi, s) + off,
